@@ -62,6 +62,10 @@ func (its *Manager) GetLatestDatatype() (iface.Datatype, uint64, errors.OrdaErro
 		return nil, 0, err
 	}
 
+	// documents beyond the recorded end of the log are leftovers of a failed commit, never acknowledged
+	for len(sseqList) > 0 && sseqList[len(sseqList)-1] > its.datatypeDoc.Sseq.End {
+		opList, sseqList = opList[:len(opList)-1], sseqList[:len(sseqList)-1]
+	}
 	if len(sseqList) <= 0 {
 		return datatype, lastSseq, nil
 	}
